@@ -129,6 +129,7 @@ type Ctx struct {
 	skolems int
 	usedAxioms map[string]bool
 	external map[string]bool
+	qhyps []qhyp
 	inlining map[*ssa.Function]int
 }
 
@@ -454,4 +455,91 @@ func sortedKeys(m map[string]string) []string {
 	}
 	sort.Strings(ks)
 	return ks
+}
+
+// qhyp: an assumed universally quantified clause, kept in structured form so that it can be
+// instantiated at the skolem constants of a quantified goal (E-matching cannot do this when the
+// hypothesis and the goal talk about different heap versions).
+type qhyp struct {
+	vars  []Param
+	body  *Expr
+	trig  [][]*Expr
+	ev    *EvalCtx
+	reach string
+}
+
+// flattenAnd splits an expression at top-level &&.
+func flattenAnd(e *Expr) []*Expr {
+	if e.Op == "binary" && e.Name == "&&" {
+		return append(flattenAnd(e.Args[0]), flattenAnd(e.Args[1])...)
+	}
+	return []*Expr{e}
+}
+
+// noteHyp records the top-level universally quantified conjuncts of an assumed clause.
+func (c *Ctx) noteHyp(e *Expr, ev *EvalCtx, reach string) {
+	for _, cj := range flattenAnd(e) {
+		if cj.Op == "forall" {
+			cp := *ev
+			c.qhyps = append(c.qhyps, qhyp{vars: cj.Vars, body: cj.Args[0], ev: &cp, reach: reach})
+		}
+	}
+}
+
+// skolemGoal evaluates a clause as a proof goal. Top-level universally quantified conjuncts are
+// skolemised and every recorded hypothesis with the same bound-variable sorts is instantiated at the skolems.
+func (c *Ctx) skolemGoal(e *Expr, ev *EvalCtx, reach string) (string, error) {
+	var parts []string
+	for _, cj := range flattenAnd(e) {
+		if cj.Op != "forall" {
+			t, err := ev.evalBool(cj)
+			if err != nil {
+				return "", err
+			}
+			parts = append(parts, t)
+			continue
+		}
+		n := ev
+		var sks []SVal
+		for _, v := range cj.Vars {
+			s, gt := c.eng.resolveType(ev.pkg, v.Type)
+			c.skolems++
+			sk := c.declare(fmt.Sprintf("sk.%s!%d", v.Name, c.skolems), s)
+			sv := SVal{T: sk, S: s, GT: gt}
+			sks = append(sks, sv)
+			n = n.bind(v.Name, sv)
+		}
+		t, err := n.evalBool(cj.Args[0])
+		if err != nil {
+			return "", err
+		}
+		parts = append(parts, t)
+		for _, h := range c.qhyps {
+			if len(h.vars) != len(sks) {
+				continue
+			}
+			ok := true
+			hn := h.ev
+			for k, hv := range h.vars {
+				s, _ := c.eng.resolveType(h.ev.pkg, hv.Type)
+				if s != sks[k].S {
+					ok = false
+					break
+				}
+				hn = hn.bind(hv.Name, sks[k])
+			}
+			if !ok {
+				continue
+			}
+			ht, err := hn.evalBool(h.body)
+			if err != nil {
+				continue
+			}
+			c.assume(h.reach, ht)
+		}
+	}
+	if len(parts) == 1 {
+		return parts[0], nil
+	}
+	return "(and " + strings.Join(parts, " ") + ")", nil
 }
